@@ -305,6 +305,39 @@ func runC12(c *engine.Ctx) {
 			}
 		}
 	})
+	// payload bodies from the size / count sweeps (SPI sizes and counts that no builder produces, attribute lengths,
+	// selector counts against cut buffers), each wrapped into a one-payload message
+	{
+		ptype := map[string]uint8{"SA.Unmarshal": ref.PSA, "Notify.Unmarshal": ref.PNotify, "TSi.Unmarshal": ref.PTSi, "TSr.Unmarshal": ref.PTSr, "Delete.Unmarshal": ref.PDelete, "EapAkaPrime.Unmarshal": ref.PEAP}
+		dn := map[string]*decoder{}
+		for n := range ptype {
+			dn[n] = &decoder{name: n}
+		}
+		seen := map[uint64]bool{}
+		n := 0
+		sweep8(c, dn, func(d *decoder, body []byte, src string) {
+			if d == nil {
+				return
+			}
+			n++
+			// quick: the small sizes and counts in full, a slice of the rest
+			if !c.Thorough() && len(body) >= 2 && body[1] > 20 && body[1] != 255 && n%7 != 0 {
+				return
+			}
+			if d.name == "EapAkaPrime.Unmarshal" {
+				body = append([]byte{1, 1, byte((4 + len(body)) >> 8), byte(4 + len(body))}, body...)
+			}
+			h := engine.Hash64([]byte(d.name), body)
+			if seen[h] || len(body)+32 > 0xffff {
+				return
+			}
+			seen[h] = true
+			pl := 4 + len(body)
+			total := 28 + pl
+			m := []byte{1, 2, 3, 4, 5, 6, 7, 8, 1, 2, 3, 4, 5, 6, 7, 9, ptype[d.name], 0x20, 37, 0x08, 0, 0, 0, 2, byte(total >> 24), byte(total >> 16), byte(total >> 8), byte(total), 0, 0, byte(pl >> 8), byte(pl)}
+			run("msg", append(m, body...), "U-sweep("+d.name+")")
+		})
+	}
 	// chains with an SK payload at every position and unsupported (non-critical) payloads around it:
 	// what the decoder skips must not change what the encoder links
 	al := univ.Alphabet()
